@@ -5,7 +5,8 @@ cd /repo || exit 2
 if [ -n "$(git status --short)" ]; then echo "/repo not clean"; exit 2; fi
 git apply "$patch" || { echo "patch does not apply"; exit 2; }
 for p in "$@"; do
-  out=$(cd /verif && timeout 1800 /venv/bin/python harness/check.py $p --tier ${TIER:-quick} 2>&1 | grep -v -i conda)
+  mkdir -p /tmp/seed_evidence /tmp/seed_replays
+  out=$(cd /verif && VERIF_EVIDENCE_DIR=/tmp/seed_evidence VERIF_REPLAYS_DIR=/tmp/seed_replays timeout 1800 /venv/bin/python harness/check.py $p --tier ${TIER:-quick} 2>&1 | grep -v -i conda)
   rc=$?
   echo "== $p: $(echo "$out" | grep -c VIOLATION) violation line(s)"
   echo "$out" | grep VIOLATION | head -3
